@@ -668,7 +668,8 @@ def run_vendor_cases(ctx, cases):
     results, mcalls, midx = [], [], []
     for i, case in enumerate(cases):
         r = impl_run(case); results.append(r)
-        try: mc = None if uses_base_ns(case) else to_model(case)
+        try:      # lxml's namespace reconciliation of fragments that use the base namespace is not modelled where it can alter them
+            mc = None if (G.shadow_pred(case) or (uses_base_ns(case) and case['profile'] in ('huawei', 'sros'))) else to_model(case)
         except NoModel: mc = None
         if mc is not None and ctx.model:
             mcalls.append([6, (r['msgid'] or 'mid').encode(), mc]); midx.append(i)
